@@ -859,7 +859,8 @@ class World(object):
         if spec.get('socket_fail'):
             self.fired('socket_fail')
             raise OSError(errno.EAFNOSUPPORT, 'Address family not supported')
-        st = SockState(self, len(self.socks), 1000 + len(self.socks), family)
+        st = SockState(self, len(self.socks),
+                       self.scen.get('fd_base', 1000) + len(self.socks), family)
         st.conn = conn
         st.addr_index = i
         st.addr_spec = spec
